@@ -75,3 +75,64 @@ def generator(repo):
     return '\n'.join(out), [f'grid {grid}, noise {noise}, axes {axes}']
 
 MODULES = [{'name': 'PowerSpectrum', 'src': 'lentil/wfe.py', 'generator': generator, 'props': ['C18']}]
+
+
+# ---------------------------------------------------------------------------------------------- rule07_dark_current
+def _lit(text):
+    """decimal literal -> (mantissa, negative-exponent flag, exponent) of `OfScientific.ofScientific`"""
+    from decimal import Decimal
+    d = Decimal(text)
+    sign, digits, exp = d.as_tuple()
+    if sign: raise Refuse(f'negative literal {text}')
+    m = int(''.join(map(str, digits)))
+    return f'(lit {m} {"true" if exp < 0 else "false"} {abs(exp)})'
+
+def _fx(e, names):
+    src = ast.unparse(e)
+    if isinstance(e, ast.Constant) and isinstance(e.value, (int, float)): return _lit(src)
+    if isinstance(e, ast.UnaryOp) and isinstance(e.op, ast.USub): return f'((lit 0 false 0) - {_fx(e.operand, names)})'
+    if isinstance(e, ast.Name):
+        if e.id in names: return e.id
+        raise Refuse(f'rule07: unknown name {e.id}')
+    if isinstance(e, ast.Call) and ast.unparse(e.func) in ('np.exp', 'numpy.exp') and len(e.args) == 1: return f'(exp {_fx(e.args[0], names)})'
+    if isinstance(e, ast.BinOp):
+        if isinstance(e.op, ast.Pow):
+            if isinstance(e.right, ast.Constant) and e.right.value == 2: return f'({_fx(e.left, names)} * {_fx(e.left, names)})'
+            return f'(pow {_fx(e.left, names)} {_fx(e.right, names)})'
+        op = {ast.Add: '+', ast.Sub: '-', ast.Mult: '*', ast.Div: '/'}.get(type(e.op))
+        if op is None: raise Refuse(f'rule07: operator in {src}')
+        return f'({_fx(e.left, names)} {op} {_fx(e.right, names)})'
+    raise Refuse(f'rule07: expression not understood: {src}')
+
+def rule07_generator(repo):
+    tree = ast.parse(open(os.path.join(repo, 'lentil', 'detector.py')).read())
+    fn = [n for n in tree.body if isinstance(n, ast.FunctionDef) and n.name == 'rule07_dark_current']
+    if not fn: raise Refuse('rule07_dark_current not found')
+    names = ['temperature', 'cutoff_wavelength', 'pixelscale']
+    lets, ret = [], None
+    for st in fn[0].body:
+        if isinstance(st, ast.Expr) and isinstance(st.value, ast.Constant): continue        # docstring
+        if isinstance(st, ast.Assign) and len(st.targets) == 1 and isinstance(st.targets[0], ast.Name):
+            lets.append(f'  let {st.targets[0].id} := {_fx(st.value, names)}'); names.append(st.targets[0].id)
+        elif isinstance(st, ast.If):
+            t = st.test
+            if not (isinstance(t, ast.Compare) and len(t.ops) == 1 and isinstance(t.ops[0], ast.GtE)): raise Refuse(f'rule07: test {ast.unparse(t)}')
+            a, b = st.body, st.orelse
+            if not (len(a) == 1 and len(b) == 1 and isinstance(a[0], ast.Assign) and isinstance(b[0], ast.Assign)
+                    and ast.unparse(a[0].targets[0]) == ast.unparse(b[0].targets[0])): raise Refuse('rule07: if/else form')
+            v = ast.unparse(a[0].targets[0])
+            lets.append(f'  let {v} := if {_fx(t.comparators[0], names)} ≤ {_fx(t.left, names)} then {_fx(a[0].value, names)} else {_fx(b[0].value, names)}')
+            names.append(v)
+        elif isinstance(st, ast.Return):
+            c = st.value
+            if not (isinstance(c, ast.Call) and ast.unparse(c.func) == 'dark_current'): raise Refuse(f'rule07: return {ast.unparse(c)}')
+            ret = ast.unparse(c.args[0]) if c.args else None
+        else: raise Refuse(f'rule07: statement not understood: {ast.unparse(st)[:60]}')
+    if ret not in names: raise Refuse('rule07: rate argument of dark_current not found')
+    body = '\n'.join(lets)
+    text = ('/-- the Rule-07 dark-current rate exactly as `rule07_dark_current` computes it (every constant and operation translated) -/\n'
+            'def rule07Rate {K : Type} [LE K] [DecidableLE K] [Add K] [Sub K] [Mul K] [Div K] (exp : K → K) (pow : K → K → K)\n'
+            '    (lit : Nat → Bool → Nat → K) (temperature cutoff_wavelength pixelscale : K) : K :=\n' + body + f'\n  {ret}\n')
+    return text, [f'{len(lets)} statements']
+
+MODULES.append({'name': 'Rule07', 'src': 'lentil/detector.py', 'generator': rule07_generator, 'props': ['C18']})
